@@ -7,7 +7,7 @@
 (*   4 curve equation (compressed: a root exists)   5 subgroup             *)
 (* The first failing stage determines the error category.                  *)
 (***************************************************************************)
-EXTENDS JCurve
+EXTENDS JCurve, DecodeStages
 
 FlagC(b) == b[1] \div 128
 FlagI(b) == (b[1] \div 64) % 2
@@ -54,6 +54,30 @@ Decode(g, form, b, checked) ==
                         P == <<x, y>>
                     IN IF checked /\ GMul(g, P, R) # <<>> THEN Err("NotInSubgroup") ELSE Ok(P)
 
+(***************************************************************************)
+(* The same decoder through the staged machine: ClassOf abstracts a byte   *)
+(* string to the answers of the five validations (DecodeStages), later     *)
+(* answers being computed only when the earlier stages pass (the subgroup  *)
+(* stage is expensive), and DecodeStages!FirstFailR gives the verdict.     *)
+(* JudgeDecode requires Decode and the machine to agree on every input.    *)
+(***************************************************************************)
+ClassOf(g, form, b, checked) ==
+  LET fOK  == (form = "c") = (FlagC(b) = 1)
+      inf  == fOK /\ FlagI(b) = 1
+      flOK == IF FlagI(b) = 1 THEN b[1] % 64 = 0 /\ AllZeroFrom(b, 2) ELSE ~(form = "u" /\ FlagS(b) = 1)
+      early == fOK /\ flOK /\ ~inf
+      rgOK == early /\ \A i \in 1..NFields(g, form) : Lt(FieldVal(b, i), Q)
+      x    == XCoord(g, b)
+      root == IF rgOK /\ form = "c" THEN GSqrt(g, GRhs(g, x)) ELSE <<FALSE, x>>
+      P    == IF form = "u" THEN <<x, YCoord(g, b)>>
+              ELSE <<x, IF IsLarger(g, root[2]) = (FlagS(b) = 1) THEN root[2] ELSE GFNeg(g, root[2])>>
+      cvOK == rgOK /\ (IF form = "u" THEN GOnCurve(g, P) ELSE root[1])
+      sbOK == cvOK /\ checked /\ GMul(g, P, R) = <<>>
+  IN [form |-> form, checked |-> checked, inf |-> inf, form_ |-> fOK, flags |-> flOK,
+      range |-> rgOK, curve |-> cvOK, sub |-> sbOK]
+MachineVerdict(g, form, b, checked) == FirstFailR(ClassOf(g, form, b, checked), 1)
+CategoryOf(d) == IF d[1] = "ok" THEN "ok" ELSE d[2]
+
 (* the library's result <<"ok", <<x,y,inf>>>> / <<"err", name>> against the abstract one *)
 DecMatches(g, lib, spec) ==
   IF spec[1] = "err" THEN lib = spec
@@ -77,6 +101,10 @@ JudgeDecode(e) ==
   /\ Len(b) = EncLen(g, e.form)
   /\ DecMatches(g, e.out.checked, dc)
   /\ DecMatches(g, e.out.unchecked, du)
+  \* the function Decode and the staged machine agree on this input (cheap stages only when
+  \* the subgroup stage was not reached; the unchecked run never reaches it)
+  /\ CategoryOf(du) = MachineVerdict(g, e.form, b, FALSE)
+  /\ (dc[1] = "err" /\ dc[2] # "NotInSubgroup" => CategoryOf(dc) = MachineVerdict(g, e.form, b, TRUE))
   /\ (dc[1] = "ok" =>
         \* non-malleability: re-encoding the decoded point reproduces the input
         /\ e.out.reenc.c = EncodeC(g, dc[2])
